@@ -364,9 +364,14 @@ pub fn run(prop: Prop, cfg: &RunCfg) -> (Stats, f64) {
             index: 0,
         };
         // deterministic extra sub-runs are sharded by worker id inside `extra`
+        // generators and sub-run drivers never call the library outside run_case; should one panic anyway it is
+        // a harness defect and is reported as such instead of killing the process
         if !cfg.no_extra {
             if let Some(extra) = prop.extra {
-                extra(cfg, &mut w);
+                if catch_unwind(AssertUnwindSafe(|| extra(cfg, &mut w))).is_err() {
+                    let (loc, msg) = take_panic();
+                    w.stats.harness_panics.push(format!("sub-run driver panicked: {} at {}", msg, loc));
+                }
             }
         }
         let gen = prop.gen;
@@ -374,8 +379,15 @@ pub fn run(prop: Prop, cfg: &RunCfg) -> (Stats, f64) {
             if w.stopped() {
                 break;
             }
-            let case = gen(&mut rng, cfg);
-            w.run_case(&case);
+            match catch_unwind(AssertUnwindSafe(|| gen(&mut rng, cfg))) {
+                Ok(case) => w.run_case(&case),
+                Err(_) => {
+                    let (loc, msg) = take_panic();
+                    if w.stats.harness_panics.len() < 4 {
+                        w.stats.harness_panics.push(format!("generator panicked: {} at {}", msg, loc));
+                    }
+                }
+            }
         }
         merged.lock().unwrap().merge(w.stats);
     };
